@@ -104,7 +104,13 @@ func (w *world) oracle(env string, before, after *Snapshot, op string, minted *b
 	// conservation (exact integers; the sum may exceed 2^64 in boundary cases, nothing here wraps): these operations only move tokens
 	want := new(big.Int).Add(before.Total(), minted)
 	if after.Total().Cmp(want) != 0 {
-		w.o.Fail("C20:tokens-not-conserved", fmt.Sprintf("env %s op %q: total %s -> %s (minted %s)", env, op, before.Total(), after.Total(), minted), w.replay())
+		sig := "C20:tokens-not-conserved"
+		if w.tag == ":order-key-collision" {
+			// in the bigbatch family the remote batch carries a withdrawal, so the pool is rewritten from the AMM ledger:
+			// tokens are conserved exactly when Σ receipts paid out = what the ledger was debited
+			sig = "C20:receipts-ne-ledger-debit" + w.tag
+		}
+		w.o.Fail(sig, fmt.Sprintf("env %s op %q: total %s -> %s (minted %s)", env, op, before.Total(), after.Total(), minted), w.replay())
 	}
 }
 
@@ -610,6 +616,15 @@ func Run(o *drv.Out) {
 	for i := 0; i < nClose; i++ {
 		w := newWorld(o, fmt.Sprintf("closeovf-%d", i))
 		w.closeOverflowCase(i)
+		w.close()
+	}
+	nBig, maxBig := 10, 600
+	if o.Tier == "thorough" {
+		nBig, maxBig = 40, 3000
+	}
+	for i := 0; i < nBig; i++ {
+		w := newWorld(o, fmt.Sprintf("bigbatch-%d", i))
+		w.bigBatchCase(i, maxBig)
 		w.close()
 	}
 	nSame := 2
